@@ -677,6 +677,19 @@ Proof.
   rewrite lookup_dict_set_same, D. cbn. rewrite Qeq_bool_refl. reflexivity.
 Qed.
 
+(* a key the facade was not given reaches none of the parameter objects: the field keeps its class default *)
+Theorem api_unset_stays_unset : forall cpu timeout n_jobs kwargs out d k,
+  facade cpu timeout n_jobs kwargs = Ok out -> lookup k kwargs = None ->
+  String.eqb k "timeout" = false -> String.eqb k "n_jobs" = false ->
+  lookup_in d out k = None.
+Proof.
+  intros cpu timeout n_jobs kwargs out d k F Hl Ht Hj.
+  destruct (facade_ok_inv _ _ _ _ _ F) as [nj [tdv [_ [_ [G1 [G2 [G3 G4]]]]]]].
+  rewrite (lookup_in_select _ _ _ _ G1 G2 G3 G4).
+  rewrite (lookup_dict_set_other _ _ _ _ Hj), (lookup_dict_set_other _ _ _ _ Ht), Hl.
+  destruct (dest_eqb (dest_of k) d); reflexivity.
+Qed.
+
 (* determine_n_jobs: k unchanged for 1 <= k <= cpu, -1 = all cpus, never an error on documented counts *)
 Theorem determine_n_jobs_spec : forall cpu n, (1 <= cpu)%Z ->
   ((1 <= n <= cpu)%Z -> determine_n_jobs cpu n = Ok n) /\
